@@ -134,14 +134,15 @@ func (it *Interp) noteLog(e *smt.Term) {
 			return
 		}
 	}
+	// no finite point of this prime-order curve has a zero coordinate
 	x := it.secpX(e)
-	it.addPC(c.And(c.Le(c.IntI(0), x), c.Lt(x, c.IntConst(secpP))))
+	it.addPC(c.And(c.Le(c.IntI(1), x), c.Lt(x, c.IntConst(secpP))))
 	y := it.secpY(e)
 	it.markNonNeg(x)
 	it.markNonNeg(y)
 	it.markLt256(x)
 	it.markLt256(y)
-	it.addPC(c.And(c.Le(c.IntI(0), y), c.Lt(y, c.IntConst(secpP))))
+	it.addPC(c.And(c.Le(c.IntI(1), y), c.Lt(y, c.IntConst(secpP))))
 	for _, o := range logs {
 		sameX := c.Eq(it.secpX(o), x)
 		same := it.scEq(o, e)
@@ -485,7 +486,7 @@ func init() {
 	})
 	R("("+secpPkg+".PublicKey).SerializeCompressed", func(it *Interp, _ *ssa.Function, a []Value) Value {
 		e := it.pointEOf(a[0])
-		if it.Branch(it.C.Eq(e, it.C.IntI(0))) {
+		if it.Branch(it.scIsZero(e)) {
 			// the real code serialises x=0 of the infinity point; nobody can parse it back
 			bs := make([]*smt.Term, 33)
 			bs[0] = it.C.BVU(2, 8)
